@@ -26,8 +26,8 @@ Non-trivial = accepted under at least one option set; distinct by hash of the in
 
 fn parts(t: Tier) -> Vec<Part> {
     let (a, b) = match t {
-        Tier::Quick => (250_000, 100_000),
-        Tier::Thorough => (4_000_000, 1_500_000),
+        Tier::Quick => (750_000, 300_000),
+        Tier::Thorough => (8_000_000, 3_000_000),
     };
     vec![enumerate("flagwords", 65536), tape("wire", a, 900), tape("noncanon", b, 900)]
 }
